@@ -55,7 +55,10 @@ MIXED_ENUM_OPERANDS = [["tag", "a"], ["tag", "order"], ["tag", "-a"], ["tag", "~
                        ["tag", "~@k-or-v=1"]]
 
 PROTOCOLS = ("v1", "auto")
-HOWS = ("explicit", "current", "config")
+# "grown-list": ONE list object gets the argument groups appended one by one, an expression is made after every step
+#   (config.tags.append(...); config.setup_tag_expression() in before_all) -- the last expression is the one checked;
+# "class-iter": the legacy class behave.tag_expression.TagExpression used directly with a one-shot iterable of arguments
+HOWS = ("explicit", "current", "config", "grown-list", "class-iter")
 FORMS = ("list", "list-blanks", "string", "string-blanks")
 
 
@@ -134,7 +137,9 @@ def valid_case(case):
     try:
         kind = case["kind"]
         if kind == "v1":
-            if case["how"] == "config" and case["form"] not in ("list", "list-blanks"):
+            if case["how"] in ("config", "grown-list", "class-iter") and case["form"] not in ("list", "list-blanks"):
+                return False
+            if case["how"] == "class-iter" and case["protocol"] != "v1":
                 return False
             return (valid_v1(case["groups"]) and case["form"] in FORMS and case["protocol"] in PROTOCOLS
                     and case["how"] in HOWS)
@@ -178,6 +183,20 @@ def build(arg, protocol_name, how, as_tuple=False):
     try:
         if how == "explicit":
             return make_tag_expression(arg, protocol)
+        if how == "grown-list":
+            if not isinstance(arg, (list, tuple)):
+                raise ValueError("grown-list needs the argument-list form")
+            grown = []
+            expr = None
+            for term in arg:
+                grown.append(term)
+                expr = make_tag_expression(grown, protocol)
+            return expr
+        if how == "class-iter":
+            from behave.tag_expression import TagExpression
+            if not isinstance(arg, (list, tuple)) or protocol_name != "v1":
+                raise ValueError("class-iter needs the argument-list form and the v1 dialect")
+            return TagExpression(a for a in list(arg))
         if how == "current":
             TagExpressionProtocol.use(protocol)
             return make_tag_expression(arg)
@@ -457,10 +476,11 @@ def v1_case_st(draw):
                           "lim": lim})
         groups.append(group)
     form = draw(st.sampled_from(FORMS))
-    how = draw(st.sampled_from(["explicit", "explicit", "current", "config"]))
-    if how == "config" and form not in ("list", "list-blanks"):
+    how = draw(st.sampled_from(["explicit", "explicit", "current", "config", "grown-list", "class-iter"]))
+    if how in ("config", "grown-list", "class-iter") and form not in ("list", "list-blanks"):
         form = "list"
-    return {"kind": "v1", "groups": groups, "form": form, "protocol": draw(st.sampled_from(PROTOCOLS)), "how": how}
+    protocol = draw(st.sampled_from(PROTOCOLS)) if how != "class-iter" else "v1"
+    return {"kind": "v1", "groups": groups, "form": form, "protocol": protocol, "how": how}
 
 
 def v2_enum(max_nodes):
@@ -514,7 +534,7 @@ def explore(rec):
 
 
 def required_labels(tier):
-    return ["v1:list", "v1:list-blanks", "v1:string", "v1:string-blanks", "protocol:v1", "protocol:auto", "how:explicit", "how:current",
+    return ["v1:list", "v1:list-blanks", "v1:string", "v1:string-blanks", "protocol:v1", "protocol:auto", "how:explicit", "how:current", "how:grown-list", "how:class-iter",
             "how:config", "v1:groups=3", "v1:alternatives=3", "v1:minus", "v1:tilde", "v1:at", "v1:negated-at",
             "v1:limit", "v1:bare-tag-with-limit", "v1:keyword-substring-tag", "v1:operator-word-inside-tag", "v1:operator-word-at-end-of-tag", "v1:non-ascii-tag", "excluded:both-dialects",
             "v2-auto", "v2-auto:single-operand", "v2-auto:keyword-substring-tag", "wildcard", "form:list",
